@@ -13,5 +13,10 @@ def run(repo, res, tier):
     hookrules.rule_v1(repo, res)
     hookrules.rule_v2(repo, res)
     hookrules.rule_v3(repo, res)
+    # the parser and the encoders drive both container families through the same operations (append, item
+    # assignment, insert, pop); the third-party family has the documented list semantics from its base class, the
+    # default family must implement the same (M4) or the two loaders/dumpers diverge
+    from .. import multidict
+    multidict.rule_m4(repo, res)
     hookrules.rule_no_hardcoded_containers(repo, res)
     apirules.rule_f1(repo, res, "new")
